@@ -202,3 +202,57 @@ def probe(ctx, only=None):
     if reported:
         ctx.extra["abort_nested_coroutines_failing_schedules"] = dict(reported)
     return ok
+
+
+def probe_middleware_exits_before_deferred_resolver(ctx):
+    """
+    NAMED PROBE (finding N8, audit round 2): `Executor.field_resolver` builds `apply_middlewares(runtime.wrap_callable(resolver))`:
+    on a runtime that off-loads the resolver (ThreadPoolRuntime) the middlewares wrap the SUBMISSION, so every middleware has
+    exited before the resolver body runs: `mw>1 mw>0 mw<0 mw<1 ... call ret`. The statement says the resolver call passes through
+    every middleware "in the documented nesting order": the resolver's execution is not nested inside them. Real 1-worker pool,
+    the resolver body held back until process_graphql_query has returned (deterministic).
+    """
+    import threading
+    from py_gql import build_schema, process_graphql_query
+    from py_gql.execution import Executor
+    from py_gql.execution.runtime import ThreadPoolRuntime
+    ev = []
+    go = threading.Event()
+
+    def resolver(root, c, info):
+        go.wait(10)
+        ev.append("call")
+        ev.append("ret")
+        return 1
+
+    def mw(n):
+        def m(next_, root, c, info, **a):
+            ev.append("mw>%d" % n)
+            r = next_(root, c, info, **a)
+            ev.append("mw<%d" % n)
+            return r
+        return m
+    schema = build_schema("type Query { a: Int }")
+    schema.register_resolver("Query", "a", resolver)
+    rt = ThreadPoolRuntime(max_workers=1)
+    ctx.count()
+    try:
+        fut = process_graphql_query(schema, "{ a }", runtime=rt, executor_cls=Executor, middlewares=[mw(0), mw(1)])
+        go.set()
+        fut.result(20)
+    except Exception:  # noqa  -- no outcome: outside the statement
+        go.set()
+        return True
+    finally:
+        rt._inner.shutdown(wait=False)
+    ctx.nontrivial(("middleware-deferred", tuple(ev)))
+    ctx.extra["deferred_resolver_middleware_trace"] = list(ev)
+    nested = ev == ["mw>1", "mw>0", "call", "ret", "mw<0", "mw<1"]
+    if not nested:
+        ctx.fail("c16:middleware-exits-before-deferred-resolver:threadpool",
+                 "ThreadPoolRuntime, two middlewares, resolver off-loaded to the pool: events %s - every middleware exited before the "
+                 "resolver was invoked (middlewares wrap runtime.wrap_callable(resolver), i.e. the submission)" % ev,
+                 {"probe": "middleware-deferred"})
+        return False
+    return True
+
